@@ -444,7 +444,7 @@ func Run(seed uint64, index int64, o hx.Opts) *hx.Result {
 	res := &hx.Result{Property: "C11", Index: index, Seed: seed, Extra: map[string]int64{}}
 	en := hx.AllKinds()
 	en[rt.KDrop], en[rt.KDup], en[rt.KTimeSkip] = false, false, false
-	cfg := rt.Config{Seed: seed, Replay: o.Replay, Verbose: o.Verbose, NPoints: o.NPoints, Bias: hx.Swarm(seed, en), MaxSteps: 200_000_000}
+	cfg := rt.Config{Seed: seed, Replay: o.Replay, Verbose: o.Verbose, NPoints: o.NPoints, Bias: hx.Swarm(seed, en), MaxSteps: 3_000_000}
 	cfg.PCT = hx.SwarmPCT(seed)
 	w := rt.NewWorld(cfg)
 	w.NoSkip = true
@@ -497,6 +497,18 @@ func Run(seed uint64, index int64, o hx.Opts) *hx.Result {
 		} else {
 			pl = genPlan(o)
 			res.Scenario = "random/" + wireNames[pl.wiring]
+		}
+		{
+			// step budget in proportion to the bytes to be moved: a receiver that spends a few dozen statements per
+			// byte delivered one at a time is slow, not stuck; a run far beyond that is
+			work := int64(0)
+			for _, l := range pl.lens {
+				work += int64(l)
+			}
+			for _, l := range pl.lens2 {
+				work += int64(l)
+			}
+			w.SetMaxSteps(3_000_000 + 100*work)
 		}
 		for f, l := range pl.lens {
 			frames = append(frames, payload(f, l))
